@@ -276,7 +276,7 @@ func (s *LinearState) deleteDependencies(ctx *Context, id string) error {
 	pattern := Map{
 		KW_DeleteWith: []string{id},
 	}
-	srs, err := s.search(ctx, pattern, false)
+	srs, err := s.search(ctx, pattern, true)
 	if nil != err {
 		return err
 	}
@@ -295,10 +295,23 @@ func (s *LinearState) deleteDependencies(ctx *Context, id string) error {
 }
 
 func (s *LinearState) Search(ctx *Context, pattern Map) (*SearchResults, error) {
-	return s.search(ctx, pattern, true)
+	s.slock(ctx, true)
+	srs, err := s.search(ctx, pattern, false)
+	s.sunlock(ctx, true)
+
+	if err == nil && 0 < srs.Expired {
+		// Removing what has expired needs the write lock.
+		s.slock(ctx, false)
+		srs, err = s.search(ctx, pattern, true)
+		s.sunlock(ctx, false)
+	}
+	return srs, err
 }
 
-func (s *LinearState) search(ctx *Context, pattern Map, lock bool) (*SearchResults, error) {
+// search does the work for Search.  Assumes the caller has a lock: the
+// write lock if 'purge' asks for expired facts to be removed (otherwise
+// they are only skipped and counted).
+func (s *LinearState) search(ctx *Context, pattern Map, purge bool) (*SearchResults, error) {
 	Log(DEBUG, ctx, "LinearState.Search", "pattern", pattern)
 	timer := NewTimer(ctx, "LinearState.search")
 	defer timer.Stop()
@@ -308,13 +321,15 @@ func (s *LinearState) search(ctx *Context, pattern Map, lock bool) (*SearchResul
 
 	srs := SearchResults{}
 	srs.Found = make([]SearchResult, 0, 0)
-	if lock {
-		s.slock(ctx, true)
-		defer s.sunlock(ctx, true)
-	}
 	for id, rf := range s.Facts {
 		srs.Checked++
-		expired, err := s.expire(ctx, id, rf.M, now)
+		var expired bool
+		var err error
+		if purge {
+			expired, err = s.expire(ctx, id, rf.M, now)
+		} else {
+			expired, err = checkExpiration(ctx, rf.M, now)
+		}
 		if err != nil {
 			return nil, err
 		}
@@ -368,28 +383,46 @@ func (s *LinearState) FindRules(ctx *Context, event Map) (map[string]Map, error)
 
 func (s *LinearState) doFindRules(ctx *Context, event Map) (map[string]Map, error) {
 	s.slock(ctx, true)
-	defer s.sunlock(ctx, true)
-	return s.findRules(ctx, event)
+	rules, expired, err := s.findRules(ctx, event, false)
+	s.sunlock(ctx, true)
+
+	if err == nil && expired {
+		// Removing what has expired needs the write lock.
+		s.slock(ctx, false)
+		rules, _, err = s.findRules(ctx, event, true)
+		s.sunlock(ctx, false)
+	}
+	return rules, err
 }
 
-// findRules does the work for doFindRules.  Assumes the caller has the lock.
-func (s *LinearState) findRules(ctx *Context, event Map) (map[string]Map, error) {
+// findRules does the work for doFindRules.  Assumes the caller has a
+// lock: the write lock if 'purge' asks for expired rules to be removed
+// (otherwise they are only skipped, and reported by the second value).
+func (s *LinearState) findRules(ctx *Context, event Map, purge bool) (map[string]Map, bool, error) {
 	// We could call Search(), but we'll try to be a bit
 	// more efficient here.
 	acc := make(map[string]Map)
 	now := time.Now().UTC().Unix()
+	someExpired := false
 	for id, rf := range s.Facts {
 		rule, given := rf.M["rule"]
 		if !given {
 			continue
 		}
-		expired, err := s.expire(ctx, id, rf.M, now)
+		var expired bool
+		var err error
+		if purge {
+			expired, err = s.expire(ctx, id, rf.M, now)
+		} else {
+			expired, err = checkExpiration(ctx, rf.M, now)
+		}
 		if err != nil {
 			Log(ERROR, ctx, "LinearState.FindRules", "error", err, "when", "expiring")
-			return nil, err
+			return nil, false, err
 		}
 		if expired {
 			Log(DEBUG, ctx, "LinearState.FindRules", "expired", expired, "ruleId", id, "rule", rule)
+			someExpired = true
 			continue
 		}
 
@@ -417,7 +450,7 @@ func (s *LinearState) findRules(ctx *Context, event Map) (map[string]Map, error)
 				// results as already match-processed.
 				bss, err := Matches(ctx, pattern, event)
 				if err != nil {
-					return nil, err
+					return nil, false, err
 				}
 				if 0 < len(bss) {
 					acc[id] = r
@@ -431,7 +464,7 @@ func (s *LinearState) findRules(ctx *Context, event Map) (map[string]Map, error)
 		}
 	}
 
-	return acc, nil
+	return acc, someExpired, nil
 }
 
 //FindCachedRules functions similarly to FindRules, except that an in-memory cache is used
@@ -449,7 +482,7 @@ func (s *LinearState) FindCachedRules(ctx *Context, event Map) (map[string]*Rule
 	s.slock(ctx, false)
 	defer s.sunlock(ctx, false)
 
-	rules, err := s.findRules(ctx, event)
+	rules, _, err := s.findRules(ctx, event, true)
 	if err != nil {
 		return nil, err
 	}
@@ -529,7 +562,21 @@ func (s *LinearState) get(ctx *Context, id string, getLock bool) (Map, error) {
 	if !found {
 		return nil, NewNotFoundError("%s", id)
 	}
-	expired, err := s.expire(ctx, id, rf.M, 0)
+	expired, err := checkExpiration(ctx, rf.M, 0)
+	if err == nil && expired {
+		// Removing the fact needs the write lock -- and another
+		// look, since the fact might have been replaced or
+		// removed in the meantime.
+		if getLock {
+			s.slock(ctx, false)
+		}
+		if rf, found = s.Facts[id]; found {
+			_, err = s.expire(ctx, id, rf.M, 0)
+		}
+		if getLock {
+			s.sunlock(ctx, false)
+		}
+	}
 	if err != nil {
 		Log(ERROR, ctx, "LinearState.Get", "error", err, "when", "expiring")
 		return nil, err
